@@ -140,6 +140,14 @@ def run(ctx):
                 if cal in ("serde_core::ser::Serializer::serialize_f32", "serde_core::ser::Serializer::serialize_f64", "serde_core::ser::Serializer::serialize_char",
                            "serde_core::ser::Serializer::serialize_i128", "serde_core::ser::Serializer::serialize_u128"):
                     ctx.violation("C03|noncanonical-scalar|" + f["path"], "%s emits a float/char/128-bit scalar" % f["path"], cfg=cfg, where=H.line(c))
+        # hand-written sequence emitters: announced length == number of elements emitted (else the item is malformed / swallows what follows)
+        for f in F.fns:
+            im = f.get("impl") or {}
+            if im.get("trait") == SER and f["name"] == "serialize" and im.get("impl_pv") == "user":
+                if any(c.get("callee") == "serde_core::ser::Serializer::serialize_seq" for c, _, _ in T.ordered_calls(f["body"])):
+                    ok, why, info = T.seq_ser_check(f)
+                    ctx.oblige("C03|seq-count|" + (im["self_ty"].get("path") or im["self_ty"]["s"]), ok,
+                               "%s: %s — the array header would not match its contents" % (im["self_ty"]["s"], why), cfg=cfg, where=f["sp"])
         # type closure
         roots = []
         renum = F.adt(ROOT_ENUM)
